@@ -216,37 +216,30 @@ func (db *Center) SuffrageProofByBlockHeight(height base.Height) (base.SuffrageP
 
 	lastheight := height
 
-	if temps := db.activeTemps(); len(temps) > 0 {
-		if height > temps[0].Height() {
-			return nil, false, nil
-		}
+	// NOTE finds in the same temps; temps can be merged and cleaned meanwhile.
+	// The cleaned temp, which has no height, is already in permanent database.
+	temps := db.activeTemps()
 
-		if temph := db.findTemp(height); temph != nil {
-			switch i, found, err := temph.SuffrageProof(); {
+	for i := range temps {
+		th := temps[i].Height()
+
+		switch {
+		case th < base.GenesisHeight:
+			continue
+		case i == 0 && height > th:
+			return nil, false, nil
+		case th <= height:
+			switch j, found, err := temps[i].SuffrageProof(); {
 			case err != nil:
 				return nil, false, e.Wrap(err)
 			case found:
-				return i, true, nil
-			}
-
-			for i := range temps {
-				temp := temps[i]
-				if temp.Height() > lastheight {
-					continue
-				}
-
-				switch j, found, err := temp.SuffrageProof(); {
-				case err != nil:
-					return nil, false, e.Wrap(err)
-				case found:
-					return j, true, nil
-				}
+				return j, true, nil
 			}
 		}
 
 		// NOTE the blocks of temps are not yet in permanent database
-		if i := temps[len(temps)-1].Height() - 1; lastheight > i {
-			lastheight = i
+		if lastheight > th-1 {
+			lastheight = th - 1
 		}
 	}
 
